@@ -118,9 +118,9 @@ func runAloneProbe(file string) int {
 		}
 	}
 	for _, o := range c.Prelude {
-		execOp(newEnv(c.Codec), prepare(o))
+		aloneOp(c.Codec, prepare(o))
 	}
-	out := execOp(newEnv(c.Codec), prepare(c.Target))
+	out := aloneOp(c.Codec, prepare(c.Target))
 	fmt.Printf("ALONE-OUTCOME=%s\n", out.Key())
 	return 0
 }
@@ -239,6 +239,7 @@ func main() {
 	stdlog.SetOutput(io.Discard)
 	initRaceLog()
 	startMainWatchdog()
+	simrt.StartClock(0xc10) // from the first instruction on, instrumented code sees the simulated clock only
 	buildCatalogue()
 
 	switch *mode {
